@@ -957,8 +957,8 @@ static const yytype_int16 yyrline[] =
     2264,  2275,  2318,  2334,  2354,  2364,  2363,  2372,  2386,  2387,
     2392,  2402,  2417,  2416,  2429,  2430,  2435,  2468,  2493,  2549,
     2556,  2562,  2568,  2578,  2582,  2590,  2602,  2616,  2623,  2630,
-    2655,  2667,  2679,  2691,  2706,  2718,  2733,  2776,  2797,  2832,
-    2867,  2901,  2932,  2954,  2964,  2974,  2984,  2994,  3014,  3034
+    2655,  2667,  2679,  2691,  2706,  2718,  2733,  2780,  2801,  2836,
+    2871,  2905,  2936,  2958,  2968,  2978,  2988,  2998,  3018,  3038
 };
 #endif
 
@@ -4917,7 +4917,11 @@ yyreduce:
           {
             case OBJECT_TYPE_INTEGER:
               (yyval.expression).type = EXPRESSION_TYPE_INTEGER;
-              (yyval.expression).value.integer = (yyvsp[0].expression).value.object->value.i;
+              // The value of an object is not known until scan time. For
+              // external variables the object holds the value given at
+              // compile time, but it can be redefined later, so it must not
+              // be treated as a constant.
+              (yyval.expression).value.integer = YR_UNDEFINED;
               break;
             case OBJECT_TYPE_FLOAT:
               (yyval.expression).type = EXPRESSION_TYPE_FLOAT;
@@ -4947,11 +4951,11 @@ yyreduce:
 
         fail_if_error(result);
       }
-#line 4951 "libyara/grammar.c"
+#line 4955 "libyara/grammar.c"
     break;
 
   case 157: /* primary_expression: '-' primary_expression  */
-#line 2777 "libyara/grammar.y"
+#line 2781 "libyara/grammar.y"
       {
         int result = ERROR_SUCCESS;
 
@@ -4972,11 +4976,11 @@ yyreduce:
 
         fail_if_error(result);
       }
-#line 4976 "libyara/grammar.c"
+#line 4980 "libyara/grammar.c"
     break;
 
   case 158: /* primary_expression: primary_expression '+' primary_expression  */
-#line 2798 "libyara/grammar.y"
+#line 2802 "libyara/grammar.y"
       {
         int result = yr_parser_reduce_operation(
             yyscanner, "+", (yyvsp[-2].expression), (yyvsp[0].expression));
@@ -5011,11 +5015,11 @@ yyreduce:
 
         fail_if_error(result);
       }
-#line 5015 "libyara/grammar.c"
+#line 5019 "libyara/grammar.c"
     break;
 
   case 159: /* primary_expression: primary_expression '-' primary_expression  */
-#line 2833 "libyara/grammar.y"
+#line 2837 "libyara/grammar.y"
       {
         int result = yr_parser_reduce_operation(
             yyscanner, "-", (yyvsp[-2].expression), (yyvsp[0].expression));
@@ -5050,11 +5054,11 @@ yyreduce:
 
         fail_if_error(result);
       }
-#line 5054 "libyara/grammar.c"
+#line 5058 "libyara/grammar.c"
     break;
 
   case 160: /* primary_expression: primary_expression '*' primary_expression  */
-#line 2868 "libyara/grammar.y"
+#line 2872 "libyara/grammar.y"
       {
         int result = yr_parser_reduce_operation(
             yyscanner, "*", (yyvsp[-2].expression), (yyvsp[0].expression));
@@ -5088,11 +5092,11 @@ yyreduce:
 
         fail_if_error(result);
       }
-#line 5092 "libyara/grammar.c"
+#line 5096 "libyara/grammar.c"
     break;
 
   case 161: /* primary_expression: primary_expression '\\' primary_expression  */
-#line 2902 "libyara/grammar.y"
+#line 2906 "libyara/grammar.y"
       {
         int result = yr_parser_reduce_operation(
             yyscanner, "\\", (yyvsp[-2].expression), (yyvsp[0].expression));
@@ -5123,11 +5127,11 @@ yyreduce:
 
         fail_if_error(result);
       }
-#line 5127 "libyara/grammar.c"
+#line 5131 "libyara/grammar.c"
     break;
 
   case 162: /* primary_expression: primary_expression '%' primary_expression  */
-#line 2933 "libyara/grammar.y"
+#line 2937 "libyara/grammar.y"
       {
         check_type((yyvsp[-2].expression), EXPRESSION_TYPE_INTEGER, "%");
         check_type((yyvsp[0].expression), EXPRESSION_TYPE_INTEGER, "%");
@@ -5149,11 +5153,11 @@ yyreduce:
           fail_if_error(ERROR_DIVISION_BY_ZERO);
         }
       }
-#line 5153 "libyara/grammar.c"
+#line 5157 "libyara/grammar.c"
     break;
 
   case 163: /* primary_expression: primary_expression '^' primary_expression  */
-#line 2955 "libyara/grammar.y"
+#line 2959 "libyara/grammar.y"
       {
         check_type((yyvsp[-2].expression), EXPRESSION_TYPE_INTEGER, "^");
         check_type((yyvsp[0].expression), EXPRESSION_TYPE_INTEGER, "^");
@@ -5163,11 +5167,11 @@ yyreduce:
         (yyval.expression).type = EXPRESSION_TYPE_INTEGER;
         (yyval.expression).value.integer = OPERATION(^, (yyvsp[-2].expression).value.integer, (yyvsp[0].expression).value.integer);
       }
-#line 5167 "libyara/grammar.c"
+#line 5171 "libyara/grammar.c"
     break;
 
   case 164: /* primary_expression: primary_expression '&' primary_expression  */
-#line 2965 "libyara/grammar.y"
+#line 2969 "libyara/grammar.y"
       {
         check_type((yyvsp[-2].expression), EXPRESSION_TYPE_INTEGER, "^");
         check_type((yyvsp[0].expression), EXPRESSION_TYPE_INTEGER, "^");
@@ -5177,11 +5181,11 @@ yyreduce:
         (yyval.expression).type = EXPRESSION_TYPE_INTEGER;
         (yyval.expression).value.integer = OPERATION(&, (yyvsp[-2].expression).value.integer, (yyvsp[0].expression).value.integer);
       }
-#line 5181 "libyara/grammar.c"
+#line 5185 "libyara/grammar.c"
     break;
 
   case 165: /* primary_expression: primary_expression '|' primary_expression  */
-#line 2975 "libyara/grammar.y"
+#line 2979 "libyara/grammar.y"
       {
         check_type((yyvsp[-2].expression), EXPRESSION_TYPE_INTEGER, "|");
         check_type((yyvsp[0].expression), EXPRESSION_TYPE_INTEGER, "|");
@@ -5191,11 +5195,11 @@ yyreduce:
         (yyval.expression).type = EXPRESSION_TYPE_INTEGER;
         (yyval.expression).value.integer = OPERATION(|, (yyvsp[-2].expression).value.integer, (yyvsp[0].expression).value.integer);
       }
-#line 5195 "libyara/grammar.c"
+#line 5199 "libyara/grammar.c"
     break;
 
   case 166: /* primary_expression: '~' primary_expression  */
-#line 2985 "libyara/grammar.y"
+#line 2989 "libyara/grammar.y"
       {
         check_type((yyvsp[0].expression), EXPRESSION_TYPE_INTEGER, "~");
 
@@ -5205,11 +5209,11 @@ yyreduce:
         (yyval.expression).value.integer = ((yyvsp[0].expression).value.integer == YR_UNDEFINED) ?
             YR_UNDEFINED : ~((yyvsp[0].expression).value.integer);
       }
-#line 5209 "libyara/grammar.c"
+#line 5213 "libyara/grammar.c"
     break;
 
   case 167: /* primary_expression: primary_expression "<<" primary_expression  */
-#line 2995 "libyara/grammar.y"
+#line 2999 "libyara/grammar.y"
       {
         int result;
 
@@ -5229,11 +5233,11 @@ yyreduce:
 
         fail_if_error(result);
       }
-#line 5233 "libyara/grammar.c"
+#line 5237 "libyara/grammar.c"
     break;
 
   case 168: /* primary_expression: primary_expression ">>" primary_expression  */
-#line 3015 "libyara/grammar.y"
+#line 3019 "libyara/grammar.y"
       {
         int result;
 
@@ -5253,19 +5257,19 @@ yyreduce:
 
         fail_if_error(result);
       }
-#line 5257 "libyara/grammar.c"
+#line 5261 "libyara/grammar.c"
     break;
 
   case 169: /* primary_expression: regexp  */
-#line 3035 "libyara/grammar.y"
+#line 3039 "libyara/grammar.y"
       {
         (yyval.expression) = (yyvsp[0].expression);
       }
-#line 5265 "libyara/grammar.c"
+#line 5269 "libyara/grammar.c"
     break;
 
 
-#line 5269 "libyara/grammar.c"
+#line 5273 "libyara/grammar.c"
 
       default: break;
     }
@@ -5489,5 +5493,5 @@ yyreturnlab:
   return yyresult;
 }
 
-#line 3040 "libyara/grammar.y"
+#line 3044 "libyara/grammar.y"
 
